@@ -4,7 +4,8 @@
      function.go  Function.Eval (argument loop 118-149, `update` write-back 152-159), ListToFunc, NewFunc,
                   CompileList (placeholder 344-363), CompileArgs, EvalArg
      lambda.go    Lambda.Call (required parameters only), BoundCall, DefLambda, Lambda.Compile
-     package.go   Package.DefLambda (patches the registered Lambda in place, replaces FuncInfo.Create)
+     package.go   Package.DefLambda (patches the registered Lambda in place; the new FuncInfo.Create hands out the
+                  registered Lambda - repo_fixes/C08-3)
      code.go      Code.Compile (definitions first, then CompileList of the rest), Code.Eval
      undefined.go Undefined.Eval
      pkg/cl/defun.go, if.go, progn.go
@@ -18,7 +19,8 @@
    where the callee records what the Go object captured when it was created: the built-in, or the name and
    the *address of the Lambda* (`Self`) bound at that moment.  Lambdas live in a heap; `lambdas` is
    Package.lambdas (name -> registered Lambda, the one patched in place by later defuns), `funcs` is
-   Package.funcs restricted to user functions (name -> the Lambda address captured by FuncInfo.Create). *)
+   Package.funcs restricted to user functions (name -> the Lambda address captured by FuncInfo.Create; since
+   repo_fixes/C08-3 always the registered one, which the invariant in Proofs.v states). *)
 From Coq Require Import List ZArith Ascii String Bool Arith.
 Import ListNotations.
 Open Scope list_scope.
@@ -26,14 +28,13 @@ Open Scope list_scope.
 Inductive sexp :=
 | SInt (z : Z)
 | SSym (x : string)
-| SList (id : nat) (xs : list sexp)
-| SGlob (x : string).   (* a *VarVal: the reference to the package variable x that Lambda.Compile puts in
-                           place of a bare body symbol that is not a parameter; never read from a text *)
+| SList (id : nat) (xs : list sexp).
 
 Inductive value :=
 | VInt (z : Z) | VNil | VT | VSym (x : string) | VList (vs : list value)
-| VVals (vs : list value)
-| VUnbound.                 (* the marker object an unbound *VarVal evaluates to (it is not signalled) *)   (* a slip.Values object: what floor, values, ... return *)
+| VVals (vs : list value)   (* a slip.Values object: what floor, values, ... return *)
+| VUnbound.                 (* slip's marker object for "no value"; M and S never produce it (before repo_fixes/C08-4 a
+                               bare body symbol bound to a variable without a value evaluated to it) *)
 
 (* error outcomes are explicit: condition classes of slip plus the model's own "not in the fragment" *)
 (* EOther: any other condition or a host fault observed on the implementation; M and S never produce it *)
@@ -185,21 +186,18 @@ Definition first_val (v : value) : value :=
   match v with VVals [] => VNil | VVals (x :: _) => x | _ => v end.
 (* Symbol.Eval / the reader: nil and t are constants; everything else is looked up in the scope chain *)
 (* Package variables are the outermost frame of the scope chain.  They are kept in the environment under
-   keys no parameter can have ("$" ++ name), so that a local binding of the same name hides the variable
-   from Symbol.Eval but not from a *VarVal reference. *)
+   keys no parameter can have ("$" ++ name); every variable of the fragment has a value (defvar and
+   defparameter with an integer). *)
 Definition gkey (x : string) : string := String "$"%char x.
 Definition sym_value (en : env) (x : string) : res :=
   if String.eqb x "nil" then Val VNil else if String.eqb x "t" then Val VT else
   match slookup x en with
   | Some v => Val v
   | None => match slookup (gkey x) en with
-            | Some VUnbound | None => Err EUnbound     (* no variable, or a variable without a value *)
             | Some v => Val v
+            | None => Err EUnbound
             end
   end.
-(* VarVal.Eval: the current value of the package variable; the unbound marker when it has none *)
-Definition glob_value (en : env) (x : string) : res :=
-  match slookup (gkey x) en with Some v => Val v | None => Val VUnbound end.
 (* EvalArg 410-412: an empty list value becomes nil *)
 Definition norm (v : value) : value := match v with VList [] => VNil | _ => v end.
 
@@ -214,7 +212,6 @@ Fixpoint select_clause (key : value) (clauses : list sexp) : option (list sexp) 
       | SList _ ks => if existsb (key_matches key) ks then Some forms else select_clause key rest
       | SSym x => if String.eqb x "t" then (match rest with [] => Some forms | _ => None end) else None
       | SInt _ => if key_matches key k then Some forms else select_clause key rest
-      | SGlob _ => None
       end
   | _ => None
   end.
@@ -335,7 +332,6 @@ Fixpoint evalM (n : nat) (st : state) (en : env) (e : sexp) : res * state :=
       match e with
       | SInt z => (Val (VInt z), st)
       | SSym x => (sym_value en x, st)
-      | SGlob x => (glob_value en x, st)
       | SList id (SSym f :: args) =>
           match wrapper st id f with
           | WUndef => (Err EUndefined, st)
@@ -398,17 +394,21 @@ Fixpoint set_nth {A} (l : list A) (i : nat) (x : A) : list A :=
   | _ :: r, O => x :: r
   | y :: r, S i' => y :: set_nth r i' x
   end.
-(* Defun.Call: slip.DefLambda (new Lambda, Lambda.Compile of the body) then Package.DefLambda *)
+(* Defun.Call: slip.DefLambda (a new Lambda at address a, Lambda.Compile of the body), then Package.DefLambda:
+   a Lambda already registered for the name (an earlier definition, or the placeholder of an earlier call - also
+   of the recursive call in this very body) takes the new definition over in place and stays registered; the
+   Lambda registered after the call is the one the new creator hands out (repo_fixes/C08-3: `lc = pkg.DefLambda(..)`;
+   before that repair the creator captured the new Lambda a, which no later definition updates) *)
 Definition defunM (st : state) (name : string) (ps : list string) (body : list sexp) : state :=
   let a := List.length (heap st) in
   let newl := mkLam name ps body false in
   let st1 := mkSt (heap st ++ [newl]) (lambdas st) (funcs st) (marks st) (out st) in
   let st2 := fold_left compile_slot body st1 in
-  let '(hp, lms) := match slookup name (lambdas st2) with
-                    | Some c => (set_nth (heap st2) c newl, lambdas st2)
-                    | None => (heap st2, (name, a) :: lambdas st2)
-                    end in
-  mkSt hp lms ((name, a) :: funcs st2) (marks st2) (out st2).
+  let '(hp, lms, reg) := match slookup name (lambdas st2) with
+                         | Some c => (set_nth (heap st2) c newl, lambdas st2, c)
+                         | None => (heap st2, (name, a) :: lambdas st2, a)
+                         end in
+  mkSt hp lms ((name, reg) :: funcs st2) (marks st2) (out st2).
 
 (* ---- top level: code objects ----------------------------------------------------------------- *)
 Inductive tform := TForm (e : sexp) | TQuote (name : string).   (* Code.Compile turns a definition into (quote name) *)
@@ -423,29 +423,17 @@ Fixpoint syms (l : list sexp) : option (list string) :=
   | SSym x :: r => match syms r with Some xs => Some (x :: xs) | None => None end
   | _ => None
   end.
-(* Lambda.Compile, Symbol case: a bare symbol as a body form stays a symbol when it is a parameter or when
-   the package already has a variable of that name (Scope.has falls through to Package.Has; a variable
-   without a value counts); otherwise a variable without a value is CREATED in the package and the body
-   form becomes its *VarVal.  The defun form itself keeps the symbol (a *VarVal is not written back), so
-   the decision is taken again - differently - when the same form is evaluated again. *)
-Definition keep_sym (gv : env) (ps : list string) (x : string) : bool :=
-  existsb (String.eqb x) ps || String.eqb x "nil" || String.eqb x "t" ||
-  match slookup (gkey x) gv with Some _ => true | None => false end.
-Fixpoint globalize_body (gv : env) (ps : list string) (body : list sexp) : list sexp * env :=
-  match body with
-  | [] => ([], gv)
-  | SSym x :: r =>
-      if keep_sym gv ps x then let (r', gv') := globalize_body gv ps r in (SSym x :: r', gv')
-      else let (r', gv') := globalize_body ((gkey x, VUnbound) :: gv) ps r in (SGlob x :: r', gv')
-  | f :: r => let (r', gv') := globalize_body gv ps r in (f :: r', gv')
-  end.
+(* Lambda.Compile compiles the body forms that are lists and leaves every other form alone: a bare symbol as a
+   body form is a variable reference like any other, looked up when the body is evaluated (repo_fixes/C08-4; it
+   used to be replaced, when it named neither a parameter nor an existing variable, by a reference to a package
+   variable created on the spot).  So a definition does not touch the variables. *)
 Definition parse_defun (e : sexp) : option (string * list string * list sexp) :=
   match e with
   | SList _ (SSym d :: SSym name :: SList _ ps :: body) =>
       if String.eqb d "defun" then match syms ps with Some xs => Some (name, xs, body) | None => None end else None
   | _ => None
   end.
-(* (defvar name k) sets the package variable when it has no value; (defparameter name k) always.
+(* (defvar name k) sets the package variable when there is none; (defparameter name k) always.
    Only integer literals as initial values are in the fragment. *)
 Definition parse_gdef (e : sexp) : option (bool * string * Z) :=
   match e with
@@ -457,7 +445,7 @@ Definition parse_gdef (e : sexp) : option (bool * string * Z) :=
 Definition gdef (gv : env) (always : bool) (name : string) (z : Z) : env :=
   if always then (gkey name, VInt z) :: gv
   else match slookup (gkey name) gv with
-       | Some VUnbound | None => (gkey name, VInt z) :: gv
+       | None => (gkey name, VInt z) :: gv
        | Some _ => gv
        end.
 
@@ -467,8 +455,7 @@ Fixpoint run_forms (n : nat) (st : state) (gv : env) (fs : list tform) (lastv : 
   | TQuote nm :: r => run_forms n st gv r (VSym nm)
   | TForm e :: r =>
       match parse_defun e with
-      | Some (nm, ps, body) =>
-          let (body', gv') := globalize_body gv ps body in run_forms n (defunM st nm ps body') gv' r (VSym nm)
+      | Some (nm, ps, body) => run_forms n (defunM st nm ps body) gv r (VSym nm)
       | None =>
           match parse_gdef e with
           | Some (always, nm, z) => run_forms n st (gdef gv always nm z) r (VSym nm)
@@ -483,8 +470,7 @@ Fixpoint compile_defs (st : state) (gv : env) (fs : list tform) : state * env * 
   | TForm e :: r =>
       match parse_defun e with
       | Some (nm, ps, body) =>
-          let (body', gv0) := globalize_body gv ps body in
-          let '(st', gv', r') := compile_defs (defunM st nm ps body') gv0 r in (st', gv', TQuote nm :: r')
+          let '(st', gv', r') := compile_defs (defunM st nm ps body) gv r in (st', gv', TQuote nm :: r')
       | None =>
           match parse_gdef e with
           | Some (always, nm, z) => let '(st', gv', r') := compile_defs st (gdef gv always nm z) r in (st', gv', TQuote nm :: r')
